@@ -548,6 +548,32 @@ def model_parts(model):
     return a.split(" | "), b.split(" ")
 
 
+def hidden_names(line):
+    """names of the materialisations whose watermark filter is off (payload time field that RETURN omits)"""
+    out = set()
+    for tok in (line or "").split(" "):
+        if tok.startswith("R:"):
+            f = tok.split(":")
+            q = f[2].split(",")
+            if len(q) == 6 and q[3] == "P" and q[4] == "0":
+                out.add(f[1])
+    return out
+
+
+def obs_agree(a, b, tok, hidden):
+    """Equality of one observation.  One relaxation: with the watermark filter off the SHOW response writer drops
+    delta rows whose id it has seen, treating the first N batches it RECEIVES as the N stored frames; frames and delta
+    batches share one channel, so once the store holds duplicates (every SHOW of such a materialisation appends the raw
+    delta) the multiplicities of the output depend on the interleaving.  Then only the key set of `out`, and everything
+    else (new frames, store mark, catalog mark) exactly, are compared."""
+    if a == b:
+        return True
+    if not (a.startswith("S out=") and b.startswith("S out=") and tok.startswith("S:") and tok.split(":")[1] in hidden):
+        return False
+    (oa, ra), (ob, rb) = a[6:].split(" ", 1), b[6:].split(" ", 1)
+    return ra == rb and set(oa.split("+")) == set(ob.split("+"))
+
+
 def diffs(c, impl, model):
     if "line" in c:
         return [] if impl == model else [f"impl {impl} model {model}"]
@@ -561,8 +587,10 @@ def diffs(c, impl, model):
     io = impl["obs"].split(" | ") if impl["obs"] else []
     if len(mo) != len(io):
         return out + [f"model produced {len(mo)} observations, implementation {len(io)}: {model[:300]}"]
+    toks = impl["line"].split(" ")[1:]
+    hidden = hidden_names(impl["line"])
     for n, (a, b) in enumerate(zip(io, mo)):
-        if a != b:
+        if not obs_agree(a, b, toks[n] if n < len(toks) else "", hidden):
             out.append(f"op#{n}: impl [{a}] model [{b}]")
     return out
 
@@ -682,7 +710,8 @@ def classify(c, impl, model=None):
     mo, cls = model_parts(model)
     io = impl["obs"].split(" | ")
     # known only when the model predicts exactly this (wrong) answer and has flagged a class by then
-    if n >= len(mo) or n >= len(io) or mo[n] != io[n]:
+    toks = impl["line"].split(" ")[1:]
+    if n >= len(mo) or n >= len(io) or not obs_agree(io[n], mo[n], toks[n] if n < len(toks) else "", hidden_names(impl["line"])):
         return None
     flagged = [x for tok in cls[:n + 1] for x in tok.split(",") if x not in ("-", "")]
     flagged = [x for x in flagged if x not in ("EVENTS-REMOVED", "ZERO-ID") and x not in FIXED_CLASSES]
